@@ -12,19 +12,43 @@ real  gates.X(t).controlled_by(*cs).decompose(*free, use_toffolis=True)  -- as (
 target) pairs, in order -- is compared EXACTLY, inside Coq (vm_compute), with `mcx_decompose cs t free`.
 An exception of the real code corresponds to `None`.
 
+Variant use_toffolis=False (congruent Toffolis).  Static theorems `mcx_decompose_congruent_all_m` ...
+of MCXProps.v (model C08/MCXSignedModel.v, signed-permutation semantics C08/Signed.v, proofs
+C08/MCXSignedProofs.v): for every m the modelled gate list sends every basis state |b> to
++|mcx_spec b> (sign +, work bits restored).  Tie, on every run:
+  (a) the real gate list of decompose(*free, use_toffolis=False) is tokenised -- X/CNOT/TOFFOLI stay,
+      each seven-gate block  RY(t,-pi/4) CNOT(c1,t) RY(t,-pi/4) CNOT(c0,t) RY(t,pi/4) CNOT(c1,t) RY(t,pi/4)
+      is checked LITERALLY (gate classes, no controls on the RYs, all on the same target, CNOT controls
+      c1,c0,c1 with c0 != c1, the four angles read by the tracer's convention symtrace.snap_pi as
+      -1/4,-1/4,1/4,1/4 of pi) and becomes one token CONG c0 c1 t; anything else is a finding --
+      and compared EXACTLY, inside Coq, with `mcx_decompose_cong cs t free` (same shapes / placements /
+      malformed stream as for use_toffolis=True); in the same files the erased model output is
+      compared with the use_toffolis=True model (same skeleton);
+  (b) generated TrigNF obligations `cong_block_is_signed_toffoli_*`: the product of the seven TRACED
+      real gates of TOFFOLI(q0,q1,q2).congruent(use_toffolis=False) equals, entry by entry, the 8x8
+      signed permutation matrix that C08/Signed.v assigns to the token (read from `cong_table`,
+      evaluated in Coq on every run: -1 on |c0 c1 t> = |100>), embedded on the sorted controls.
+
 Use from harness/c08.py:   STATIC += c08_mcx_model.STATIC ;  c08_mcx_model.run_model_correspondence(run, rng)
                            (replay of a key "mcx_model:*":  c08_mcx_model.replay_model_case(run, data["replay"]))
 """
 STATIC = ["C08/MCXProps"]
 
-from lib import qtrace, vcore
+import itertools
+from fractions import Fraction
+
+import numpy as np
+
+from lib import qtrace, vcore, tables, symtrace as st
+from lib.tables import Item
 
 HEADER = ("From Coq Require Import List Bool Arith.\n"
-          "From QV Require Import Base.Mat C08.Reversible C08.MCXModel.\n"
+          "From QV Require Import Base.Mat C08.Reversible C08.MCXModel C08.Signed C08.MCXSignedModel.\n"
           "Import ListNotations.\n")
 GATESET = {"X": 0, "CNOT": 1, "TOFFOLI": 2}
 NMAX = 11
 CHUNK = 400
+CHUNK_CONG = 250        # two booleans per case
 
 
 def real_decomposition(cs, t, free):
@@ -165,6 +189,215 @@ def run_cases(run, cases, tag):
     return bad
 
 
+# ====================================================================== use_toffolis=False
+QUARTER = Fraction(1, 4)
+
+
+def tokenise_cong(dec):
+    """real gate list -> tokens ("SCX", sorted controls, target) / ("CONG", c0, c1, t); a seven-gate block
+    becomes a CONG token only after it has been checked literally.  ("gateset", description) otherwise."""
+    out, i = [], 0
+    while i < len(dec):
+        g = dec[i]
+        nm = type(g).__name__
+        if nm in GATESET:
+            if len(g.control_qubits) != GATESET[nm] or len(g.target_qubits) != 1:
+                return ("gateset", f"{nm} controls={list(g.control_qubits)} targets={list(g.target_qubits)}")
+            out.append(("SCX", sorted(int(q) for q in g.control_qubits), int(g.target_qubits[0])))
+            i += 1
+            continue
+        blk = dec[i:i + 7]
+        names = [type(h).__name__ for h in blk]
+        if names != ["RY", "CNOT", "RY", "CNOT", "RY", "CNOT", "RY"]:
+            return ("gateset", f"position {i}: expected a 7-gate congruent block, found {names}")
+        rys, cns = blk[0::2], blk[1::2]
+        t = int(rys[0].target_qubits[0])
+        if any(len(h.control_qubits) or h.is_controlled_by or tuple(h.target_qubits) != (t,) for h in rys):
+            return ("gateset", f"position {i}: RY gates of the block are not plain RYs on one target")
+        if any(len(h.control_qubits) != 1 or tuple(h.target_qubits) != (t,) for h in cns):
+            return ("gateset", f"position {i}: CNOTs of the block do not target the RY qubit {t}")
+        c1, c0, c1b = (int(h.control_qubits[0]) for h in cns)
+        if c1 != c1b or c0 == c1 or t in (c0, c1):
+            return ("gateset", f"position {i}: CNOT controls {[c1, c0, c1b]} target {t} are not of the form c1,c0,c1")
+        angles = [st.snap_pi(float(h.parameters[0])) for h in rys]
+        if angles != [-QUARTER, -QUARTER, QUARTER, QUARTER]:
+            return ("gateset", f"position {i}: RY angles {[float(h.parameters[0]) for h in rys]} are not -pi/4,-pi/4,pi/4,pi/4")
+        out.append(("CONG", c0, c1, t))
+        i += 7
+    return out
+
+
+def real_decomposition_cong(cs, t, free):
+    gg = qtrace.mod("qibo.gates.gates")
+    try:
+        dec = gg.X(t).controlled_by(*cs).decompose(*free, use_toffolis=False)
+    except Exception as e:  # the model's None
+        return ("raises", type(e).__name__)
+    return tokenise_cong(dec)
+
+
+def coq_sgate_list(toks):
+    if not toks:
+        return "(@nil sgate)"
+    return "[" + "; ".join(f"SCX ({qtrace.nat_list(k[1])}, {k[2]}%nat)" if k[0] == "SCX"
+                           else f"CONG {k[1]}%nat {k[2]}%nat {k[3]}%nat" for k in toks) + "]"
+
+
+def coq_model_call_cong(cs, t, free):
+    return f"mcx_decompose_cong {qtrace.nat_list(cs)} {t}%nat {qtrace.nat_list(free)}"
+
+
+def coq_expected_cong(real):
+    if isinstance(real, tuple):
+        return "None"
+    return f"(Some {coq_sgate_list(real)})"
+
+
+def cong_witness(cs, t, free):
+    """a basis state on which the real decomposition (use_toffolis=False), executed numerically by the real
+    backend, is not +|mcx(b)>: wrong bits, a disturbed work qubit, or a relative phase"""
+    gg = qtrace.mod("qibo.gates.gates")
+    n = max(list(cs) + [t] + list(free)) + 1
+    if n > 10:
+        return {}
+    try:
+        U = qtrace.full_unitary(gg.X(t).controlled_by(*cs).decompose(*free, use_toffolis=False), n)
+    except Exception as e:  # noqa: BLE001
+        return {"error": f"{type(e).__name__}: {e}"}
+    for j, bits in enumerate(itertools.product([0, 1], repeat=n)):
+        want = list(bits)
+        if all(bits[q] for q in cs):
+            want[t] ^= 1
+        k = int("".join(map(str, want)), 2)
+        if abs(U[k, j] - 1) > 1e-8:
+            i = int(np.argmax(np.abs(U[:, j])))
+            return {"input_bits": list(bits), "expected_bits": want, "amplitude_on_expected": complex(U[k, j]),
+                    "largest_output_index": i, "largest_output_amplitude": complex(U[i, j])}
+    return {}
+
+
+def classify_mismatch_cong(run, idx, cs, t, free, real):
+    info = {}
+    mv = run.coq_eval(f"C08_mcxcong_value_{idx}.v", HEADER, [coq_model_call_cong(cs, t, free)], timeout=300)
+    info["model"] = mv[0] if mv else None
+    if isinstance(real, tuple):
+        info["implementation"] = list(real)
+    else:
+        info["implementation"] = [list(k) for k in real]
+    spec_ok = None
+    n = max(cs + [t] + free) + 1
+    if not isinstance(real, tuple) and n <= 14:
+        term = f"signed_check {n}%nat {qtrace.nat_list(sorted(cs))} {t}%nat {coq_sgate_list(real)}"
+        res, _ = run.coq_bools(f"C08_mcxcong_spec_{idx}.v", HEADER, [("spec", term)], timeout=600)
+        if res is not None:
+            spec_ok = res["spec"]
+    w = {}
+    if spec_ok is not True and not (isinstance(real, tuple) and real[0] == "raises"):
+        w = cong_witness(cs, t, free)
+        if w:
+            spec_ok = False
+    return {**info, **w}, spec_ok
+
+
+def run_cases_cong(run, cases, tag):
+    """cases: list of (kind, cs, t, free), variant use_toffolis=False.  Returns number of mismatches."""
+    bad = 0
+    classified = set()
+    for off in range(0, len(cases), CHUNK_CONG):
+        chunk = cases[off:off + CHUNK_CONG]
+        items, reals = [], []
+        for i, (kind, cs, t, free) in enumerate(chunk):
+            real = real_decomposition_cong(cs, t, free)
+            reals.append(real)
+            items.append((f"{tag}{off + i}", f"same_sresult ({coq_model_call_cong(cs, t, free)}) {coq_expected_cong(real)}"))
+            items.append((f"{tag}{off + i}_skel", f"same_skeleton ({coq_model_call_cong(cs, t, free)}) ({coq_model_call(cs, t, free)})"))
+        res, out = run.coq_bools(f"C08_mcxcong_{tag}_{off // CHUNK_CONG}.v", HEADER, items, timeout=900)
+        if res is None:
+            run.find("coq:C08_mcxcong", "MCX congruent-model correspondence file does not compile",
+                     {"log": out[-1200:]}, concrete=False)
+            return bad + 1
+        for i, ((kind, cs, t, free), real) in enumerate(zip(chunk, reals)):
+            lab = f"{tag}{off + i}"
+            m, nf = len(cs), len(free)
+            nontrivial = not isinstance(real, tuple) and len(real) > 1
+            run.case(["mcx_model_cong", kind, cs, t, free], nontrivial=nontrivial or kind != "valid")
+            if kind == "valid" and m >= 3 and nf >= 1:
+                run.sample({"mcx_model_cong": {"controls": cs, "target": t, "free": free,
+                                               "tokens": len(real) if not isinstance(real, tuple) else list(real)}})
+            if not res[lab + "_skel"]:
+                bad += 1
+                run.find(f"mcx_model:cong_skeleton:{m}:{nf}",
+                         "the two hand-written models disagree: erasing the signs of mcx_decompose_cong does not give mcx_decompose",
+                         {"variant": "cong", "kind": kind, "controls": cs, "target": t, "free": free}, concrete=False)
+            expect_ok = kind == "valid" and (m < 3 or nf >= 1)
+            ok = res[lab]
+            if ok and expect_ok and isinstance(real, tuple):
+                ok = False
+            if ok:
+                continue
+            bad += 1
+            if (m, nf) in classified:       # one classified finding per shape; the others are counted
+                continue
+            classified.add((m, nf))
+            info, spec_ok = classify_mismatch_cong(run, lab, cs, t, free, real)
+            rep = {"variant": "cong", "kind": kind, "controls": cs, "target": t, "free": free, **info}
+            if isinstance(real, tuple) and real[0] == "raises" and expect_ok:
+                what = (f"X.decompose(use_toffolis=False) with {m} controls and {nf} free qubits raises {real[1]} on an "
+                        "admissible input (the model returns a gate list)")
+                concrete = True
+            elif spec_ok is False:
+                what = ("gate list of X.decompose(use_toffolis=False) differs from the verified model AND is not the "
+                        "multi-controlled X (wrong bits, a disturbed work qubit or a relative phase on some basis state)")
+                concrete = True
+            elif isinstance(real, tuple) and real[0] == "gateset":
+                what = ("decomposition with use_toffolis=False contains something other than X/CNOT/TOFFOLI and literal "
+                        f"congruent blocks: {real[1]} (numerically still the multi-controlled X; the all-m theorem no longer transfers)")
+                concrete = False
+            else:
+                what = ("gate list of X.decompose(use_toffolis=False) differs from the verified Coq model (the all-m theorem "
+                        "no longer transfers to the implementation); signed check of the real gate list: "
+                        + ("passes" if spec_ok else "not evaluated"))
+                concrete = False
+            run.find(f"mcx_model:cong:{m}:{nf}", what, rep, concrete=concrete)
+    return bad
+
+
+def cong_matrix_from_coq(run):
+    """8x8 integer matrix of the token CONG c0 c1 t on (c0, c1, t) as C08/Signed.v defines it
+    (`cong_table`, evaluated now): column |b> has its single entry (+1/-1) in row `bits`."""
+    vals = run.coq_eval("C08_cong_table.v", HEADER, ["cong_table"], timeout=300)
+    if not vals:
+        return None
+    bs = vcore.parse_bools(vals[0])
+    if len(bs) != 56:
+        return None
+    M = np.zeros((8, 8), dtype=int)
+    for k in range(8):
+        e = bs[7 * k:7 * k + 7]
+        col = int("".join("1" if x else "0" for x in e[0:3]), 2)
+        row = int("".join("1" if x else "0" for x in e[3:6]), 2)
+        M[row, col] = -1 if e[6] else 1
+    return M
+
+
+def cong_items(M):
+    """TrigNF obligations: traced product of the seven real gates == signed TOFFOLI matrix, exactly"""
+    gg = qtrace.mod("qibo.gates.gates")
+    items = []
+    for q0, q1, q2 in ((0, 1, 2), (3, 1, 0), (2, 0, 1)):
+        n = max(q0, q1, q2) + 1
+        lo, hi = sorted((q0, q1))
+
+        def b(params, _q=(q0, q1, q2), _lo=lo, _hi=hi, _n=n):
+            lhs = gg.TOFFOLI(*_q).congruent(use_toffolis=False)
+            rhs = [gg.Unitary(np.array(M, dtype=complex), _lo, _hi, _q[2], check_unitary=False)]
+            return lhs, rhs, _n
+        items.append(Item(f"cong_block_is_signed_toffoli_{q0}{q1}{q2}", f"cong_block:{q0}:{q1}:{q2}", 0, b, mode="eq",
+                          meta={"toffoli": [q0, q1, q2], "token": ["CONG", lo, hi, q2],
+                                "signed_matrix_diag": [int(M[i, i]) for i in range(8)]}))
+    return items
+
+
 def run_model_correspondence(run, rng):
     try:
         vcore.ensure_static_build(STATIC)
@@ -195,14 +428,36 @@ def run_model_correspondence(run, rng):
     nbad += run_cases(run, mal, "x")
     run.notes["mcx_model"] = {"cases": len(cases), "malformed": len(mal), "mismatches": nbad,
                               "m": "0..8", "n_max": NMAX, "placements_per_shape": per}
-    run.trusted += ["C08/MCXModel.v (hand-written model of X.decompose, tied by exact gate-list correspondence)",
+    # ---- use_toffolis=False: same shapes, fresh placements, tokenised real gate lists
+    ccases = []
+    for m in range(0, 9):
+        for nf in range(0, NMAX - m):
+            for cs, t, free in placements(rng, m, nf, per):
+                ccases.append(("valid", cs, t, free))
+    cbad = run_cases_cong(run, ccases, "cv")
+    cmal = [("malformed", cs, t, free) for cs, t, free in malformed(rng)]
+    cbad += run_cases_cong(run, cmal, "cx")
+    M = cong_matrix_from_coq(run)
+    if M is None:
+        run.find("coq:C08_cong_table", "cong_table of C08/Signed.v could not be evaluated", {}, concrete=False)
+    else:
+        run.notes["cong_signed_matrix"] = M.tolist()
+        tables.run_items(run, cong_items(M), "C08_cong_block", rng)
+    run.notes["mcx_model_cong"] = {"cases": len(ccases), "malformed": len(cmal), "mismatches": cbad,
+                                   "m": "0..8", "n_max": NMAX, "placements_per_shape": per}
+    run.trusted += ["C08/MCXModel.v, C08/MCXSignedModel.v (hand-written models of X.decompose with use_toffolis=True / False, "
+                    "tied by exact gate-list correspondence; seven-gate congruent blocks are grouped into one CONG token "
+                    "after a literal check of classes, qubits and angles)",
                     "C08/Reversible.v run_cx/mcx_spec as the meaning of X/CNOT/TOFFOLI circuits on basis states; "
-                    "linearity lifts the statement to all states of the work qubits"]
-    run.not_proved += ["use_toffolis=False (congruent TOFFOLIs with relative phases) is outside the boolean model; "
-                       "covered only by the bounded symbolic instances of mcx_items"]
+                    "C08/Signed.v run_signed as the meaning of circuits with congruent Toffolis (signed permutations; the "
+                    "matrix of the CONG token is tied to the traced real gates by obligations cong_block_is_signed_toffoli_*); "
+                    "linearity lifts both statements to all states of the work qubits"]
 
 
 def replay_model_case(run, rep):
     """re-execute one recorded case (replay dict of a finding 'mcx_model:<m>:<nfree>')"""
     cs, t, free = list(rep["controls"]), int(rep["target"]), list(rep["free"])
-    run_cases(run, [(rep.get("kind", "valid"), cs, t, free)], "r")
+    if rep.get("variant") == "cong":
+        run_cases_cong(run, [(rep.get("kind", "valid"), cs, t, free)], "cr")
+    else:
+        run_cases(run, [(rep.get("kind", "valid"), cs, t, free)], "r")
